@@ -94,6 +94,57 @@ def run(tier, seed):
         one(b)
         if i < 3:
             chk.sample({"input_len": n, "impl_enc_prefix": impl_enc(b)[:24]})
+    # byte strings whose CONTENT looks like an encoding of something (padded / unpadded base64 text, hex text, JSON text, CBOR, nested once or twice): they are
+    # just bytes - one decode undoes exactly one encode
+    import base64 as _b64, json as _json
+    looks = []
+    for inner in (b"", b"A", b"AB", b"ABC", b"ABCD", b"\x00", b"\xff\xfe", bytes(16), bytes(range(32)), b"credential-id"):
+        for lvl in (1, 2):
+            v = inner
+            for _ in range(lvl):
+                v = _b64.urlsafe_b64encode(v)
+            looks += [v, v.rstrip(b"="), _b64.b64encode(inner), inner.hex().encode(), _json.dumps(inner.hex()).encode(), _json.dumps({"id": inner.hex()}).encode()]
+    looks += [b"QUJDRA==", b"AA==", b"AAA=", b"AAAA", b"deadbeef" * 4, b"=" * 4, b"====", b"A===", b"[" * 40, b"{" * 40, b"null", b"true", b"0", b"-1", b'""', b"\xa0", b"\x40", b"\x80" * 3]
+    looks += [bytes.fromhex(("deadbeef" * 4)[i:] + ("deadbeef" * 4)[:i]) for i in (0, 2)] + [_b64.urlsafe_b64decode("deadbeef" * 4), _b64.urlsafe_b64decode("0123456789abcdef" * 2), _b64.urlsafe_b64decode("a" * 32)]
+    for b in looks:
+        one(b)
+    # the argument may be any bytes-like object, and what counts is what it holds WHEN the call is made: a buffer that is refilled between two calls (same view
+    # object), and bytes subclasses with an equality of their own, encode to the encoding of their current contents
+    import mmap
+    mm = mmap.mmap(-1, 48)
+    views = {"read-only view of an mmap block": memoryview(mm).toreadonly(), "writable view of an mmap block": memoryview(mm), "bytearray": bytearray(48)}
+    for what, v in views.items():
+        for fill in (b"\x11" * 48, b"\x22" * 48, bytes(range(48)), b"\x11" * 48):
+            if isinstance(v, bytearray):
+                v[:] = fill
+            else:
+                mm[:] = fill
+            try:
+                enc = impl_enc(v)
+            except Exception as e:
+                enc = "ERR " + fw.classify_exc(e)
+            chk.evals += 1
+            want = _b64.urlsafe_b64encode(fill).decode().rstrip("=")
+            if enc != want and not str(enc).startswith("ERR"):
+                chk.violation(f"encoding of a {what} does not follow the buffer's current contents", f"enc-buffer-refilled {what}", {"op": "enc", "form": what, "contents_hex": fill.hex(), "impl": enc, "expected": want,
+                                                                                                                             "history": "the same view object was encoded before with other contents"})
+    for v in views.values():
+        if isinstance(v, memoryview):
+            v.release()
+    mm.close()
+    class AllEqual(bytes):
+        def __eq__(self, other): return True
+        def __hash__(self): return 1
+    class NeverEqual(bytes):
+        def __eq__(self, other): return False
+        def __hash__(self): return 2
+    for cls in (AllEqual, NeverEqual):
+        for raw in (b"first value", b"second value!", b"", b"first value"):
+            enc = impl_enc(cls(raw))
+            chk.evals += 1
+            want = _b64.urlsafe_b64encode(raw).decode().rstrip("=")
+            if enc != want:
+                chk.violation(f"a bytes subclass with its own equality / hash ({cls.__name__}) is not encoded by its contents", f"enc-bytes-subclass {cls.__name__}", {"op": "enc", "class": cls.__name__, "contents_hex": raw.hex(), "impl": enc, "expected": want})
     # texts that are words elsewhere but plain base64url here: decode(text) is what the model says, and re-encoding gives the text back when it is canonical
     from harness import srcdict
     import base64 as _b64
